@@ -118,8 +118,15 @@ def run(ctx):
             g = (rnd.choice(['not', 'X', 'F', 'G']), g)
         if gen.temporal_count(g) <= 4:
             fam_n.append({'K': rnd.choice(scope3), 'f': (rnd.choice('AE'), g)})
+    # negated / nested next-time operators under non-CTL quantifiers (closure ordering of `not X`, `X not`)
+    xn = [('X', ('not', x)) for x in M0] + [('not', ('X', x)) for x in M0] + [('X', ('X', ('not', P))), ('X', ('not', ('X', Q)))]
+    fam_x = []
+    for _ in range(800 if q else 15000):
+        a, b = rnd.choice(xn), rnd.choice(xn + M0 + gen.path_un(M0))
+        g = rnd.choice([('G', a), ('and', b, a), ('or', a, b), ('U', b, a), ('F', ('and', a, b)), ('G', ('or', a, b)), ('R', a, b)])
+        fam_x.append({'K': rnd.choice(scope3), 'f': (rnd.choice('AE'), g)})
     fam_e = [dict(c, mode='text') for c in gen.samp(rnd, fam_a + fam_c + fam_n, 800 if q else 15000)]
-    fams = [('scope2', fam_a), ('catalogue3', fam_b), ('nested', fam_c), ('nary', fam_n), ('random', fam_d), ('text', fam_e)]
+    fams = [('scope2', fam_a), ('catalogue3', fam_b), ('nested', fam_c), ('nary', fam_n), ('next-negation', fam_x), ('random', fam_d), ('text', fam_e)]
     for _, fam in fams:
         for c in fam:
             c['logic'] = 'CTLS'
